@@ -36,6 +36,7 @@ cases={
 "wrappedparams": (ctl("wrappedparams","// @Method(GET)\n// @Route(/x)\n// @Query(firstName)\nfunc (c *C) Search(firstName,\n\tlastName string,\n) error {\n\treturn nil\n}\n"),"reject"),
 "wrappedok": (ctl("wrappedok","// @Method(GET)\n// @Route(/x)\n// @Query(firstName)\n// @Query(lastName)\nfunc (c *C) Search(\n\tfirstName string,\n\tlastName struct {\n\t\tA string\n\t},\n) (\n\tstring,\n\terror,\n) {\n\treturn \"\", nil\n}\n"),"reject"),
 "varnames": (ctl("varnames","// @Method(GET)\n// @Route(/users/{id})\n// @Path(id)\nfunc (c *C) GetUser(id string) error { return nil }\n\n// @Method(DELETE)\n// @Route(/users/{userId})\n// @Path(userId)\nfunc (c *C) DeleteUser(userId string) error { return nil }\n"),"any"),
+"shapegeneric": (ctl("shapegeneric","type GNode[T any] struct {\n\tValue T\n\tNext  *GNode[T]\n}\n\n// @Method(POST)\n// @Route(/x)\n// @Body(b)\nfunc (c *C) M(b GNode[string]) error { return nil }\n"),"any"),
 "warnonly": (ctl("warnonly","// @Method(GET)\n// @Route(/x)\nfunc (c *C) M() error { return nil }\n\n// @Method(GET)\n// @Route(/x)\nfunc (c *C) M2() error { return nil }\n"),"accept"),
 }
 for n,(src,exp) in cases.items():
